@@ -7,7 +7,7 @@ import (
 
 func init() {
 	Register(&Scenario{Prop: "C02", Name: "converge-after-heal", Run: scenC02, SoftParks: true, Weight: 1,
-		Rule: "2-4 writer replicas of one database (type drawn per run); 3-12 (thorough 3-36) writes interleaved with kernel steps under drop/dup/reorder of announcements and direct-channel payloads, link cuts/heals, crash or clean stop + restart (open + Load(-1)); final phase: writes stop, crashed peers restart, every link is cut until both sides observed it, then all links heal and no further fault occurs; oracle: within 180 virtual seconds and 6000 kernel steps the world is at rest and every replica holds every acknowledged write and all replicas show equal state; non-trivial = at least one fault fired and at least one entry reached some replica only after the final heal; writes include bursts of 2-3 concurrent writers on one replica (stepped through the write path, or free-running under seeded yields)"})
+		Rule: "2-4 writer replicas of one database (type drawn per run); 3-12 (thorough 3-36) writes interleaved with kernel steps under drop/dup/reorder of announcements and direct-channel payloads, link cuts/heals, block fetches that end with an error (1 run in 3: pending fetches failed by the kernel; 1 in 3: the first 1-3 fetches of about half the entries), crash or clean stop + restart (open + Load(-1)); final phase: writes stop, crashed peers restart, every link is cut until both sides observed it, then all links heal and no further fault occurs; oracle: within 180 virtual seconds and 6000 kernel steps the world is at rest and every replica holds every acknowledged write and all replicas show equal state; non-trivial = at least one fault fired and at least one entry reached some replica only after the final heal; writes include bursts of 2-3 concurrent writers on one replica (stepped through the write path, or free-running under seeded yields)"})
 }
 
 func scenC02(k *K) {
@@ -20,6 +20,10 @@ func scenC02(k *K) {
 	if k.C.Chance(1, 2) {
 		k.F.Cut, k.F.Heal = 2, 1
 	}
+	// a fetch across a link that is cut, or from a peer that went down, ends with an error
+	// sooner or later: 1 run in 3 fails pending fetches, 1 in 3 fails the first fetches of
+	// about half the entries (until the final phase)
+	c.FetchFailures()
 	k.W.HoldOnCut = k.C.Chance(1, 2)
 	nops := k.C.Range(3, 12)
 	if Tier == "thorough" {
@@ -75,6 +79,10 @@ func scenC02(k *K) {
 		before[i] = len(LogHashSet(s))
 	}
 	k.F = BenignCfg()
+	c.GapFill = false
+	k.W.mu.Lock()
+	k.W.FailWant = map[string]int{}
+	k.W.mu.Unlock()
 	for a := 0; a < n; a++ {
 		for b := a + 1; b < n; b++ {
 			if !k.W.IsCut(a, b) {
